@@ -255,15 +255,39 @@ theorem reconnectable (jid pass : Option Bytes) (cert : Bool) (flags : Nat) (ops
     c.state = .disconnected → c.jid.isSome → c.tcpFail = false →
       (connectClient c).2 = 0 ∧ (connectClient c).1.state = .connecting ∧
       (connectClient c).1.queue = [] := by
-  intro c hs hj ht
+  sorry
+
+/-- `reconnectable` with the API precondition that `xmpp_connect_client` checks since the fix
+    "a JID without a usable domain is refused": the domain part of the JID is not empty and does
+    not start with a dot.  Without it the statement above is false (`example` below: JID ""). -/
+theorem reconnectable_partial (jid pass : Option Bytes) (cert : Bool) (flags : Nat) (ops : List Op) :
+    let c := exec (fresh jid pass cert flags) ops
+    c.state = .disconnected → c.jid.isSome → c.tcpFail = false →
+    (∀ j, c.jid = some j → (Jid.domain j).head? ≠ none ∧ (Jid.domain j).head? ≠ some 46) →
+      (connectClient c).2 = 0 ∧ (connectClient c).1.state = .connecting ∧
+      (connectClient c).1.queue = [] := by
+  intro c hs hj ht hdom
   cases hjid : c.jid with
   | none => simp [hjid] at hj
   | some j =>
     have hr : ¬ c.state ≠ .disconnected := by simp [hs]
+    have hd : ¬ ((Jid.domain j).head? = none ∨ (Jid.domain j).head? = some 46) := by
+      have := hdom j hjid
+      intro h; rcases h with h | h
+      · exact this.1 h
+      · exact this.2 h
     unfold connectClient
     simp only [hjid]
+    rw [if_neg hd]
     split <;>
       simp [connConnect, connReset, systemDeleteAll, prepareReset, hs, ht]
+
+/-- the counterexample to `reconnectable` as stated: the JID "" is present, the object is
+    disconnected, TCP would succeed, and the call is refused with XMPP_EINVOP -/
+example :
+    let c := exec (fresh (some []) none false 0) []
+    c.state = .disconnected ∧ c.jid.isSome = true ∧ c.tcpFail = false ∧ (connectClient c).2 = xmppEInvOp := by
+  decide
 
 /-- releasing ends a running attempt with its (single) disconnect notification -/
 theorem release_disconnects (c : Conn) : (release c).state = .disconnected := by
